@@ -336,6 +336,35 @@ func runC13(r *ev.Run) {
 				multiProbe()
 			}
 		}
+		// the last act of every fourth case: the POPULATED index is trained again, on other data. Where the stored vectors
+		// end up is the implementation's business (so nothing cluster-specific is asserted any more), but at full probe
+		// every live vector is still there with its true distance, and nothing else is
+		if ci%4 == 2 && len(m.live) > 0 {
+			re := make([]comet.VectorNode, nlist+10+rng.IntN(20))
+			for i := range re {
+				v := vg.fresh()
+				for j := range v {
+					v[j] = v[j]*2 + 1
+				}
+				re[i] = *comet.NewVectorNodeWithID(uint32(i+1), v)
+			}
+			if err := idx.Train(re); err == nil {
+				hist = append(hist, histOp{Op: "train-again"})
+				for t := 0; t < 3; t++ {
+					q := vg.query()
+					res, err := idx.NewSearch().WithQuery(cloneF32(q)).WithK(0).WithNProbes(nlist).Execute()
+					if err != nil {
+						rep("ivf.search-error", "after re-training the populated index: "+err.Error())
+						break
+					}
+					checkListing(func(sig, what string) { rep(sig, "after re-training the populated index: "+what) }, "ivf.full", toListing(res), m.live, m.live, func(id uint32) (float64, float64) {
+						d := trueDist(metric, q, m.raw[id])
+						return d, distTol(metric, s.dim, d)
+					}, r)
+				}
+				r.Count("ops:train-again-on-a-populated-index", 1)
+			}
+		}
 		if r.WantSample() && ci%40 == 0 {
 			h := hist
 			if len(h) > 5 {
